@@ -83,6 +83,7 @@ pub fn tasks() -> Vec<TaskT> {
 pub struct VehicleT {
     pub id: &'static str,
     pub closed: bool,
+    pub end_loc: usize,
     pub start_earliest: f64,
     pub start_latest: f64,
     pub end_latest: f64,
@@ -96,6 +97,7 @@ pub fn vehicles() -> Vec<VehicleT> {
     let v = |id, closed, start_latest, end_latest, capacity| VehicleT {
         id,
         closed,
+        end_loc: 0,
         start_earliest: 0.,
         start_latest,
         end_latest,
@@ -111,6 +113,8 @@ pub fn vehicles() -> Vec<VehicleT> {
         v("v_open1", false, 0., MAXT, 1),
         v("v_closed1", true, 0., 1000., 1),
         v("v_shift", true, 20., 60., 2),
+        // ends somewhere else than it starts
+        VehicleT { end_loc: 3, ..v("v_other_end", true, 0., 1000., 2) },
     ]
 }
 
@@ -234,7 +238,7 @@ impl Lab {
         let core_vehicles = vehicles.iter().map(|v| {
             let mut d = VehicleDetailBuilder::default().set_start_location(0).set_start_time(v.start_earliest).set_start_time_latest(v.start_latest);
             if v.closed {
-                d = d.set_end_location(0).set_end_time(v.end_latest);
+                d = d.set_end_location(v.end_loc).set_end_time(v.end_latest);
             }
             let mut vehicle = VehicleBuilder::default()
                 .id(v.id)
@@ -420,8 +424,8 @@ pub fn sim(tasks: &[TaskT], vehicle: &VehicleT, seq: &[Visit], departure: f64) -
         }
     }
     if vehicle.closed {
-        let arrival = t + dur(loc, 0);
-        r.distance += dist(loc, 0);
+        let arrival = t + dur(loc, vehicle.end_loc);
+        r.distance += dist(loc, vehicle.end_loc);
         r.end_arrival = arrival;
         if arrival > vehicle.end_latest {
             fail(&mut r, format!("arrival at the end {arrival} after shift end {}", vehicle.end_latest));
